@@ -84,6 +84,27 @@ pub fn run(ctx: &Ctx, rep: &mut Report) {
         for k in ["ア", "カ", "イウ", "1", "2", "一", "十", "万"] {
             sys.entries.push(Entry::simple(k, rng.range(0, nid - 1) as i16, rng.range(0, nid - 1) as i16, rng.range(0, 3000) as i16, &pool[if k.chars().all(|c| "12一十万".contains(c)) { 1 } else { 0 }]));
         }
+        // every sixth repetition: thousands of words whose dictionary form is another entry, and texts made of them
+        // (whatever is remembered per dictionary form is exercised with far more forms than any small table holds)
+        let big_forms = !miri && idx % 6 == 3;
+        let mut inflected: Vec<String> = vec![];
+        if big_forms {
+            let alpha: Vec<char> = "さしすせそたちつてとなにぬねのはひふへほまみむめもらりるれろ".chars().collect();
+            let base = sys.entries.len();
+            let n = 1500;
+            for k in 0..n {
+                let lemma: String = [alpha[k % 30], alpha[(k / 30) % 30], alpha[(k / 900) % 30], 'る'].iter().collect();
+                sys.entries.push(Entry::simple(&lemma, rng.range(0, nid - 1) as i16, rng.range(0, nid - 1) as i16, 3000, &pool[3]));
+            }
+            for k in 0..n {
+                let infl: String = [alpha[k % 30], alpha[(k / 30) % 30], alpha[(k / 900) % 30], 'っ', 'た'].iter().collect();
+                let mut e = Entry::simple(&infl, rng.range(0, nid - 1) as i16, rng.range(0, nid - 1) as i16, -1500, &pool[3]);
+                e.dic_form = Some(crate::model::Ref { dic: 0, row: base + k, inline: false });
+                sys.entries.push(e);
+                inflected.push(infl);
+            }
+            rep.count("repetitions_with_thousands_of_dictionary_forms", 1);
+        }
         // every plugin type
         let mut p = PluginOpts::random(&mut rng, &matrix, true);
         p.default_input = true;
@@ -126,6 +147,15 @@ pub fn run(ctx: &Ctx, rep: &mut Report) {
                     }
                 }
                 texts[k] = s;
+            }
+        }
+        if big_forms {
+            for k in 1..texts.len() {
+                let mut t = String::new();
+                for _ in 0..30 {
+                    t.push_str(rng.pick(&inflected[..]).as_str());
+                }
+                texts[k] = t;
             }
         }
         // text 0 exercises every input-text plugin at once: all threads analyse it first, so whatever is
